@@ -90,7 +90,7 @@ Fixpoint pkts (e : sexp) : list Z :=
 Definition lapout_buf (c : cfg) (s : dec) (buf : Z -> sexp) : Z -> sexp :=
   let n0 := half c false in
   let n1 := half c true in
-  if d_ret s <? 0 then buf
+  if (d_ret s <? 0) || negb (d_fresh s) then buf
   else
     let buf1 := if d_centerW s =? n1
                 then (fun i => if (0 <=? i) && (i <? n1) then buf (i + n1)
